@@ -394,9 +394,13 @@ func (v *v0ProtocolMarshaler) readPairs(buff []byte, start, end int32) (map[stri
 	i := start
 	for i < end {
 		// Read header name.
+		if end-i < 4 {
+			return nil, thrift.NewTProtocolExceptionWithType(thrift.INVALID_DATA,
+				errors.New("frugal: invalid v0 protocol header name"))
+		}
 		nameSize := int32(binary.BigEndian.Uint32(buff[i : i+4]))
 		i += 4
-		if i > end || i+nameSize > end {
+		if nameSize < 0 || nameSize > end-i {
 			return nil, thrift.NewTProtocolExceptionWithType(thrift.INVALID_DATA,
 				errors.New("frugal: invalid v0 protocol header name"))
 		}
@@ -404,9 +408,13 @@ func (v *v0ProtocolMarshaler) readPairs(buff []byte, start, end int32) (map[stri
 		i += nameSize
 
 		// Read header value.
+		if end-i < 4 {
+			return nil, thrift.NewTProtocolExceptionWithType(thrift.INVALID_DATA,
+				errors.New("frugal: invalid v0 protocol header value"))
+		}
 		valueSize := int32(binary.BigEndian.Uint32(buff[i : i+4]))
 		i += 4
-		if i > end || i+valueSize > end {
+		if valueSize < 0 || valueSize > end-i {
 			return nil, thrift.NewTProtocolExceptionWithType(thrift.INVALID_DATA,
 				errors.New("frugal: invalid v0 protocol header value"))
 		}
